@@ -175,6 +175,13 @@ func (x *Exec) callStatic(fr *frame, st *State, fn *ssa.Function, args []Val, bi
 		}
 	}
 	if fc := x.eng.contractFor(fn); fc != nil && !forceInline && fc.Opts["looponly"] == "" {
+		if sym := x.eng.modeForeign(fc, x.vc.ar.Mode); sym != "" {
+			// the callee's contract is written over definitions that exist only in the other
+			// arithmetic mode (e.g. a bit-vector codec called from a function verified over
+			// mathematical integers): it cannot be used here; the call is one of unknown effect
+			x.vc.noteHavoc(full + " (contract uses " + sym + ", not available in this arithmetic mode)")
+			return x.havocCall(st, fn.Signature, short), nil
+		}
 		return x.applyContract(fr, st, fc, fn.Signature, args, pos, fn)
 	}
 	if cat, ok := x.eng.externCat(full); ok {
